@@ -61,10 +61,20 @@ CLAIMS = {
          "5 C04", "weakest-precondition VCs over go/ssa + SMT"),
  "C02": ("Run-time panic freedom (index, slice, nil dereference, type assertion, make size, nil-map write, integer wrap and conversion) and "
          "loop termination are proved for every function under contract that carries this property: the entry points without recover "
-         "NewNumber, GuessSchemaType and the regex schema (Check/Len/Pattern/GetAST) are panic-free on every input (one recorded finding: "
+         "NewNumber, GuessSchemaType, the regex schema (Check/Len/Pattern/GetAST) and the JSON document lexeme iterator (NextLexeme) are panic-free on every input (one recorded finding: "
          "exponent magnitude above 2^40), plus ParseUint/ParseInt, text positions, error rendering. Not decided: the schema/enum/JSON scanners, "
          "loader, compiler, checker, OpenAPI conversion (not under contract), stack depth, memory exhaustion.",
          "5 C02", "weakest-precondition VCs over go/ssa + SMT (safety obligations on every operation, decreases clauses)"),
+ "C12": ("Partial. For the JSON document scanner every one of the 39 state functions (contracts instantiated mechanically per function from "
+         "the source), found/shiftFound/processingFoundLexeme, Next, newScanner and Document.nextLexeme/NextLexeme/rewind are proved: no "
+         "run-time panic on any byte and any nesting depth; closed-world dispatch of s.step; every panic raised is an error value, either a "
+         "kit.JSchemaError positioned on the byte just read (index inside the text) or a coded *errs.Err, hence nextLexeme converts it and no "
+         "panic escapes; at most three queued events, only JSON event types, stack entries are opening events; the unfinishedLiteral flag that "
+         "decides acceptance at end of input agrees with the scanner state for numbers and true/false/null (incomplete after '-', '.', e/E, "
+         "exponent sign, inside a keyword; complete after digits); Next's reading loop terminates. Not decided: the language equality with the "
+         "RFC 8259 pushdown automaton for nesting (coupling of the event stack with the automaton's stack), exact lexeme spans and pairing, tree equality with an "
+         "independent decoder, Len().",
+         "5 C12", "weakest-precondition VCs over go/ssa + SMT; function-type contract instantiated per state function"),
 }
 
 NOT_APPLICABLE = {
